@@ -110,13 +110,13 @@ Print Assumptions C10_wrong_uid.
    authenticator; and ProcessRequest / ProcessResponse accept it under the
    sealing key.  For all keys of legal length, all headers, nonces, cookies.
    Requests: NewRequestPacket's identifier has 32 bytes (newID) and the key
-   exchange admits cookies of at most 896 bytes (ntske.MaxCookieLen); nothing
+   exchange lets through cookies of at most 896 bytes (ntske.MaxCookieLen); nothing
    else is assumed - that the packet fits into 1024 bytes is proved.
    Responses: the cookies are of the issued shape (one length L, a multiple of
    4: Encode of an encrypted server cookie; 124 bytes for 32-byte keys), the
    identifier is the one decoded from a request (at least 32 bytes, a multiple
    of 4 - see C10_complete_needs_padded_uid) and there is room for one cookie
-   (1 <= maxCookies: every request that DecodePacket admits leaves that room
+   (1 <= maxCookies: every request that DecodePacket lets through leaves that room
    for cookies of the size it carried itself); that the packet then fits into
    1024 bytes is proved.  With L >= 24 (each field is then at least the 28 bytes
    the loop of authenticate asks for) the client gets exactly the cookies
